@@ -26,7 +26,7 @@ func TestVerifC10(t *testing.T) {
 			if tier == vfThorough {
 				return 5*5*80 + 200
 			}
-			return 5*5 + 5
+			return 5*5*2 + 5
 		},
 		Shards: func(tier vfTier) int {
 			if tier == vfThorough {
@@ -92,7 +92,7 @@ func c10Want(start, p string) string {
 }
 
 func c10Run(u *vfUnit) {
-	nf := 25
+	nf := 50
 	if u.Tier == vfThorough {
 		nf = 200
 	}
@@ -112,6 +112,8 @@ func c10Forward(u *vfUnit) {
 	store := vfNewStore()
 	// every name exists: handlers answer from a permissive store
 	store.OpenErr = func(m, p string) error { return nil }
+	// handlers that work with their own derivation of the request (Request.WithContext) see the same request
+	store.ViaWithContext = (u.Index/25)%2 == 1
 	rs, err := vfRawConnect(vfSrvCfg{Kind: vfRS, StartDir: start, Alloc: u.Index%2 == 0, H: store.Handlers(opt)}, vfPipeOpts{}, true)
 	if err != nil {
 		u.Inconclusive("connect: %v", err)
@@ -341,6 +343,14 @@ func c10Backward(u *vfUnit, part int) {
 		}
 		return nil
 	}
+	store.CloseErr = func(p string) error {
+		if where == "close" {
+			return cur
+		}
+		return nil
+	}
+	// every other part: handlers that work with their own derivation of the request (Request.WithContext)
+	store.ViaWithContext = (part/2)%2 == 1
 	rs, err := vfRawConnect(vfSrvCfg{Kind: vfRS, Alloc: part%2 == 0, H: store.Handlers(vfHandlerOpt{OpenFile: true, CmdAll: true, ListAll: true})}, vfPipeOpts{}, true)
 	if err != nil {
 		u.Inconclusive("connect: %v", err)
@@ -435,6 +445,32 @@ func c10Backward(u *vfUnit, part int) {
 				u.Violation("backward-text:"+e.name, fmt.Sprintf("%s returned %v: the failure text on the wire is %q", pr.name, e.err, got.Msg), w)
 			}
 			// close whatever a successful open may have produced (the store opened nothing on error)
+		}
+		// the objects handlers returned: what their Close reports is the answer to the CLOSE request, for every
+		// kind of handle (reader, writer, reader+writer, lister)
+		for _, op := range []vfPkt{{Type: rfOpen, Path: "/file", Pflags: rfRead_}, {Type: rfOpen, Path: "/file", Pflags: rfWrite_}, {Type: rfOpen, Path: "/file", Pflags: rfRead_ | rfWrite_}, {Type: rfOpendir, Path: "/dir"}} {
+			h := open(op)
+			if h == "" {
+				u.Violation("backward-open-failed", fmt.Sprintf("%s not answered with a handle", op), nil)
+				continue
+			}
+			cur, where = e.err, "close"
+			id++
+			resp, err := rs.R.Phase(60*time.Second, vfPkt{Type: rfClose, ID: id, Handle: h})
+			where = ""
+			name := fmt.Sprintf("Close-of-object(%s pflags=%#x)", []string{"OPEN", "OPENDIR"}[vfB2i(op.Type == rfOpendir)], op.Pflags)
+			u.Eval(fmt.Sprintf("bwd/%s/%s", name, e.name))
+			u.Count("error_values_checked", 1)
+			w := map[string]any{"handler": name, "returned_error": fmt.Sprintf("%T %v", e.err, e.err)}
+			if err != nil || len(resp) != 1 || resp[0].Type != rfStatus {
+				u.Violation("backward-no-reply:"+name, fmt.Sprintf("%s returned %s: %v %v", name, e.name, resp, err), w)
+				continue
+			}
+			if got := resp[0]; got.Code != e.code {
+				u.Violation(fmt.Sprintf("backward-code:%s:got=%d:want=%d", e.name, got.Code, e.code), fmt.Sprintf("%s returned %s (%T: %v): status code %d on the wire, expected %d", name, e.name, e.err, e.err, got.Code, e.code), w)
+			} else if e.text != "" && !strings.Contains(got.Msg, e.text) {
+				u.Violation("backward-text:"+e.name, fmt.Sprintf("%s returned %v: the failure text on the wire is %q", name, e.err, got.Msg), w)
+			}
 		}
 		// through the real client: classification with the standard errors
 		cur, where = e.err, "cmd"
